@@ -2189,6 +2189,18 @@ fn main() {
         }
     };
 
+    // The timeout family (silent connections must be reclaimed within the configured timeouts) is
+    // property C16's business: it runs only under `--prop C16` (or `--family timeout`), alone.
+    if args.prop == "C16" || args.extra.get("family").map(|f| f == "timeout").unwrap_or(false) {
+        let fs = timeout_family();
+        for (class, detail) in &fs {
+            push_fail(&mut failures, class, detail, vec!["h2conn timeout".to_string()]);
+        }
+        dist.insert("kind:timeout".into(), 5);
+        samples.push(json!({"case": "timeout family: 5 silent connections on a worker with front_timeout = request_timeout = 1 s", "failures": fs.len()}));
+        let rc = finish_with_rule(&args, 5, 5, &failures, &known, &dist, &samples, t0, "black box, own worker with front_timeout = request_timeout = 1 s: five TLS+h2 connections go silent after the settings exchange - idle, inside a frame header (5 of 9 bytes), inside a declared stream-0 payload (10 of 100 bytes), inside a DATA payload of an open stream, inside a header block (HEADERS without END_HEADERS) - and must be closed by sozu within 6 s (H2CONN_TIMEOUT_WAIT overrides); the worker must stay alive");
+        std::process::exit(rc);
+    }
     let mut cases = build_cases(args.seed, thorough);
     let mut stream_cases = build_stream_cases(args.seed, thorough);
     let mut replay_names: Vec<String> = vec![];
@@ -2254,12 +2266,6 @@ fn main() {
             std::process::exit(1);
         }
     };
-    // the timeout family waits for seconds: on its own worker, next to everything else
-    let want_timeout = match &args.replay {
-        None => true,
-        Some(p) => read_replay_ops(p).iter().any(|o| o.starts_with("h2conn timeout")),
-    };
-    let timeout_thread = if want_timeout { Some(std::thread::spawn(timeout_family)) } else { None };
     // the concurrent well-behaved connection
     let mut good = Client::connect(bed.front).ok().and_then(|mut c| c.handshake().ok().map(|_| c));
     let mut good_sid = 1u32;
@@ -2604,18 +2610,6 @@ fn main() {
             }
         }
     }
-    if let Some(h) = timeout_thread {
-        match h.join() {
-            Ok(fs) => {
-                evaluations += 5;
-                *dist.entry("kind:timeout".into()).or_insert(0) += 5;
-                for (class, detail) in fs {
-                    push_fail(&mut failures, &class, &detail, vec!["h2conn timeout".to_string()]);
-                }
-            }
-            Err(_) => push_fail(&mut failures, "harness-thread-panicked", "timeout family", vec![]),
-        }
-    }
     bed.stop_backend.store(true, Ordering::Relaxed);
     drop(good);
     let rep = bed.worker.stop();
@@ -2626,8 +2620,15 @@ fn main() {
     std::process::exit(rc);
 }
 
+const H2CONN_RULE: &str = "black box: one real worker (HTTPS listener, H1 backend), one TLS+h2 client connection per case: a complete random/corner frame after the settings exchange followed by a PING (verdict: the Lean decoder's: err c => GOAWAY(c), exact on stream 0 and for oversize, any of PROTOCOL/STREAM_CLOSED/FRAME_SIZE or a stream error when stream state is consulted first; ok => answered, never silence), PING/SETTINGS/WINDOW_UPDATE/CONTINUATION floods with the trip point predicted by the Lean flood model (acknowledged-frame count compared), empty-DATA and rapid-reset floods, zero increment, window overflow, stray CONTINUATION, 120 unanswered requests vs the advertised 100-stream limit, first-SETTINGS payloads vs the model's first_settings; flood-variant family: every flood kind in its wire-level variants (empty DATA unpadded / PADDED pad 0 / pad 5 / pad 255 / mixed, on an open and on a closed stream; PING plain / odd flags / ACK / mixed; SETTINGS empty / known entries / unknown ids / ACK / mixed; WINDOW_UPDATE stream 0 with small increments, reserved bit, flags; CONTINUATION with empty fragments after an empty or 2-byte HEADERS fragment; WINDOW_UPDATE / RST_STREAM / DATA floods on a closed stream (glitch counter); PRIORITY / PRIORITY_UPDATE / unknown-type floods, which no counter looks at) - the trip point is computed by the Lean model (decoded frame -> frameEvents -> detector) and the connection is driven once to one frame below it (must be served) and once exactly to it (must get GOAWAY(ENHANCE_YOUR_CALM) and be closed); slot-recycle family: waves of up to 12 concurrent requests on one connection whose responses name the request (/echo/<token>), with held requests reset in between, so that stream slots are recycled and the slot vector shrinks; every response must arrive on the stream that asked for it; backend-peer family (sozu as HTTP/2 client of a cluster with http2=true, scripted prior-knowledge backend): after sozu's request HEADERS the backend sends a malformed frame (oversize, SETTINGS/PING/WINDOW_UPDATE/RST_STREAM/GOAWAY of a wrong length, PUSH_PROMISE, DATA on stream 0: GOAWAY code of the Lean decoder), frames on an idle stream, zero increment, window overflow, stray CONTINUATION (RFC), PING and SETTINGS floods (trip point of the Lean flood model), a correct 200, a graceful GOAWAY refusing the request; the front request must be answered (never hang), the front connection and another cluster keep being served; request-level family: header-field count at 127/128/129/204 fields and decoded header-list size through HPACK indexed references (15/17/20 x 4033 bytes) vs the Lean headerBudget; content-length 5/0/absent against DATA bodies (exact, padded, too much in the first/second frame, too little at END_STREAM, empty END_STREAM, trailers) vs the Lean contentLengthRun; PRIORITY with self-dependency on a known / look-ahead idle / far idle / closed stream and in a HEADERS frame vs priorityVerdict; PRIORITY_UPDATE for stream 0; DATA / PING / HEADERS / CONTINUATION on another stream / WINDOW_UPDATE / unknown type inside an open header block (RFC 9113 6.2: PROTOCOL_ERROR); HPACK garbage (COMPRESSION_ERROR); after a stream error a new request on the same connection must be served; receive-limits family: after peer SETTINGS (its MAX_FRAME_SIZE 16384 / 65536 / 2^24-1, INITIAL_WINDOW_SIZE 1 / 2^31-1, MAX_CONCURRENT_STREAMS 1 / 1000, HEADER_TABLE_SIZE, MAX_HEADER_LIST_SIZE, ENABLE_PUSH, all together with an unknown id; invalid values judged by the Lean handleSettings) frames at and above the limits sozu advertises - unknown-type and DATA frames of 16384 / 16385 / 70000 bytes sent in full, 3 full DATA frames inside the advertised window, 3 requests on the limit-2 listener, a plain request - must get the verdict of the Lean decoder (cdecode with the local bound) / history model, then a PING ACK or the GOAWAY; history family: frame sequences (new requests that the backend never answers, DATA with/without END_STREAM, WINDOW_UPDATE, RST_STREAM, PRIORITY, HEADERS on used/refused ids) on one connection of the limit-2 listener, a PING after every frame, the answer to each frame compared with the Lean history model connStep; stream-state family on a listener with h2_max_concurrent_streams=2: DATA/HEADERS/WINDOW_UPDATE/RST_STREAM/PRIORITY/CONTINUATION on a stream id that is idle (above every used id), implicitly closed (below), closed by END_STREAM (equal to / below the last id), closed by the peer's RST_STREAM, refused by the stream limit, refused while draining after SoftStop's GOAWAY (own worker), half-closed (remote), open - sent after the scene is established and in one batch with it, random odd ids in thorough; judged by an RFC 9113 5.1 table written here and compared exactly with the Lean table `headerVerdict`; afterwards a slot is freed and a new stream on the same connection must be answered 200; after a GOAWAY the connection must be closed; worker.alive(), a long-lived good connection and a fresh probe connection must keep being served";
+
 #[allow(clippy::too_many_arguments)]
 fn finish(args: &Args, evaluations: u64, nontrivial: u64, failures: &[Value], known: &[Value], dist: &std::collections::BTreeMap<String, u64>, samples: &[Value], t0: Instant) -> i32 {
+    finish_with_rule(args, evaluations, nontrivial, failures, known, dist, samples, t0, H2CONN_RULE)
+}
+
+#[allow(clippy::too_many_arguments)]
+fn finish_with_rule(args: &Args, evaluations: u64, nontrivial: u64, failures: &[Value], known: &[Value], dist: &std::collections::BTreeMap<String, u64>, samples: &[Value], t0: Instant, rule: &str) -> i32 {
     let res = json!({
         "area": "h2conn",
         "property": args.prop,
@@ -2635,7 +2636,7 @@ fn finish(args: &Args, evaluations: u64, nontrivial: u64, failures: &[Value], kn
         "seed": args.seed,
         "evaluations": evaluations,
         "distinct_nontrivial": nontrivial,
-        "rule": "black box: one real worker (HTTPS listener, H1 backend), one TLS+h2 client connection per case: a complete random/corner frame after the settings exchange followed by a PING (verdict: the Lean decoder's: err c => GOAWAY(c), exact on stream 0 and for oversize, any of PROTOCOL/STREAM_CLOSED/FRAME_SIZE or a stream error when stream state is consulted first; ok => answered, never silence), PING/SETTINGS/WINDOW_UPDATE/CONTINUATION floods with the trip point predicted by the Lean flood model (acknowledged-frame count compared), empty-DATA and rapid-reset floods, zero increment, window overflow, stray CONTINUATION, 120 unanswered requests vs the advertised 100-stream limit, first-SETTINGS payloads vs the model's first_settings; flood-variant family: every flood kind in its wire-level variants (empty DATA unpadded / PADDED pad 0 / pad 5 / pad 255 / mixed, on an open and on a closed stream; PING plain / odd flags / ACK / mixed; SETTINGS empty / known entries / unknown ids / ACK / mixed; WINDOW_UPDATE stream 0 with small increments, reserved bit, flags; CONTINUATION with empty fragments after an empty or 2-byte HEADERS fragment; WINDOW_UPDATE / RST_STREAM / DATA floods on a closed stream (glitch counter); PRIORITY / PRIORITY_UPDATE / unknown-type floods, which no counter looks at) - the trip point is computed by the Lean model (decoded frame -> frameEvents -> detector) and the connection is driven once to one frame below it (must be served) and once exactly to it (must get GOAWAY(ENHANCE_YOUR_CALM) and be closed); timeout family (own worker, front_timeout 1 s, in parallel): a connection that goes silent when idle, inside a frame header, inside a declared payload, inside a DATA payload of an open stream, inside a header block must be closed by sozu within 6 s; slot-recycle family: waves of up to 12 concurrent requests on one connection whose responses name the request (/echo/<token>), with held requests reset in between, so that stream slots are recycled and the slot vector shrinks; every response must arrive on the stream that asked for it; backend-peer family (sozu as HTTP/2 client of a cluster with http2=true, scripted prior-knowledge backend): after sozu's request HEADERS the backend sends a malformed frame (oversize, SETTINGS/PING/WINDOW_UPDATE/RST_STREAM/GOAWAY of a wrong length, PUSH_PROMISE, DATA on stream 0: GOAWAY code of the Lean decoder), frames on an idle stream, zero increment, window overflow, stray CONTINUATION (RFC), PING and SETTINGS floods (trip point of the Lean flood model), a correct 200, a graceful GOAWAY refusing the request; the front request must be answered (never hang), the front connection and another cluster keep being served; request-level family: header-field count at 127/128/129/204 fields and decoded header-list size through HPACK indexed references (15/17/20 x 4033 bytes) vs the Lean headerBudget; content-length 5/0/absent against DATA bodies (exact, padded, too much in the first/second frame, too little at END_STREAM, empty END_STREAM, trailers) vs the Lean contentLengthRun; PRIORITY with self-dependency on a known / look-ahead idle / far idle / closed stream and in a HEADERS frame vs priorityVerdict; PRIORITY_UPDATE for stream 0; DATA / PING / HEADERS / CONTINUATION on another stream / WINDOW_UPDATE / unknown type inside an open header block (RFC 9113 6.2: PROTOCOL_ERROR); HPACK garbage (COMPRESSION_ERROR); after a stream error a new request on the same connection must be served; receive-limits family: after peer SETTINGS (its MAX_FRAME_SIZE 16384 / 65536 / 2^24-1, INITIAL_WINDOW_SIZE 1 / 2^31-1, MAX_CONCURRENT_STREAMS 1 / 1000, HEADER_TABLE_SIZE, MAX_HEADER_LIST_SIZE, ENABLE_PUSH, all together with an unknown id; invalid values judged by the Lean handleSettings) frames at and above the limits sozu advertises - unknown-type and DATA frames of 16384 / 16385 / 70000 bytes sent in full, 3 full DATA frames inside the advertised window, 3 requests on the limit-2 listener, a plain request - must get the verdict of the Lean decoder (cdecode with the local bound) / history model, then a PING ACK or the GOAWAY; history family: frame sequences (new requests that the backend never answers, DATA with/without END_STREAM, WINDOW_UPDATE, RST_STREAM, PRIORITY, HEADERS on used/refused ids) on one connection of the limit-2 listener, a PING after every frame, the answer to each frame compared with the Lean history model connStep; stream-state family on a listener with h2_max_concurrent_streams=2: DATA/HEADERS/WINDOW_UPDATE/RST_STREAM/PRIORITY/CONTINUATION on a stream id that is idle (above every used id), implicitly closed (below), closed by END_STREAM (equal to / below the last id), closed by the peer's RST_STREAM, refused by the stream limit, refused while draining after SoftStop's GOAWAY (own worker), half-closed (remote), open - sent after the scene is established and in one batch with it, random odd ids in thorough; judged by an RFC 9113 5.1 table written here and compared exactly with the Lean table `headerVerdict`; afterwards a slot is freed and a new stream on the same connection must be answered 200; after a GOAWAY the connection must be closed; worker.alive(), a long-lived good connection and a fresh probe connection must keep being served",
+        "rule": rule,
         "samples": samples,
         "traces_validated_against_impl": evaluations - failures.len() as u64,
         "disagreements_checked": evaluations,
